@@ -161,6 +161,8 @@ def observe(obj, fmt):
     items = [[k, v] for k, v in obj.items()]
     charts = []
     for c in obj.charts:
+        if not hasattr(c, "items"):
+            raise Violation(f"the simfile's chart list holds {c!r}, which is not a chart")
         if fmt == "sm":
             charts.append({"fields": [c[k] for k in SM_FIELDS], "extra": list(c.extradata) if c.extradata else None})
         else:
